@@ -15,9 +15,18 @@ structure Del where
 deriving Repr, DecidableEq
 
 structure PlainA (i : Instr) : Prop where
-  alt : i.alt = none
   altOnly : i.blockAlt.isSome = true → i.kind.isBlockStyle = true
   only : i.kind.isBlockStyle = false → i.semAfter = [] ∧ i.blockEntry = [] ∧ i.blockExit = []
+
+/-- the alternate of an opener that carries a block alternate: an empty replacement empties it, a non-empty one is appended to what an
+    instruction-level alternate had put there -/
+def altOf (i : Instr) (alt : List Tok) : List Tok := if alt.isEmpty then [] else i.alt.getD [] ++ alt
+
+theorem altOf_none (i : Instr) (alt : List Tok) (h : i.alt = none) : altOf i alt = alt := by
+  unfold altOf
+  cases he : alt.isEmpty with
+  | true => simp [List.isEmpty_iff.mp he]
+  | false => simp [h]
 
 /-- one instruction: frames, removal state, the code that goes in front of the token (behind the instruction's own `before` list), what
     stands in place of the token (`none`: the token itself), the code that goes behind it (behind the instruction's own `after` list) -/
@@ -29,10 +38,10 @@ def specStepA (fr : List Fr) (del : Option Del) (i : Instr) :
     | some _ => some ({} :: fr, del, [], some [], [])
     | none =>
       match i.blockAlt with
-      | some alt => some ({} :: fr, some ⟨fr.length, false⟩, [], some alt, [])
+      | some alt => some ({} :: fr, some ⟨fr.length, false⟩, [], some (altOf i alt), [])
       | none =>
         let f : Fr := if i.kind = .if_ then { ifExit := i.blockExit, afterA := i.semAfter } else { exitB := i.blockExit, afterA := i.semAfter }
-        some (f :: fr, none, [], none, i.blockEntry)
+        some (f :: fr, none, [], i.alt, i.blockEntry)
   | .else_ =>
     match fr with
     | top :: below :: rest =>
@@ -41,10 +50,10 @@ def specStepA (fr : List Fr) (del : Option Del) (i : Instr) :
       | none =>
         match i.blockAlt with
         | some alt =>
-          some ({ top with ifExit := [] } :: below :: rest, some ⟨rest.length + 1, true⟩, top.ifExit, some alt, [])
+          some ({ top with ifExit := [] } :: below :: rest, some ⟨rest.length + 1, true⟩, top.ifExit, some (altOf i alt), [])
         | none =>
           some ({ top with ifExit := [], exitB := top.exitB ++ i.blockExit, afterA := top.afterA ++ i.semAfter } :: below :: rest, none,
-            top.ifExit, none, i.blockEntry)
+            top.ifExit, i.alt, i.blockEntry)
     | _ => none
   | .end_ =>
     match fr with
@@ -52,15 +61,15 @@ def specStepA (fr : List Fr) (del : Option Del) (i : Instr) :
       match del with
       | some ⟨d, retain⟩ =>
         if d = rest.length then
-          if retain then some (rest, none, top.ifExit ++ top.exitB, none, endAfter top)
+          if retain then some (rest, none, top.ifExit ++ top.exitB, i.alt, endAfter top)
           else some (rest, none, [], some [], [])
         else some (rest, del, [], some [], [])
-      | none => some (rest, none, top.ifExit ++ top.exitB, none, endAfter top)
+      | none => some (rest, none, top.ifExit ++ top.exitB, i.alt, endAfter top)
     | [] => none
   | _ =>
     match del with
     | some _ => some (fr, del, [], some [], [])
-    | none => some (fr, none, [], none, [])
+    | none => some (fr, none, [], i.alt, [])
 
 def specRunA (last : Nat) : Nat → List Fr → Option Del → List Instr → Option (List Tok)
   | _, fr, _, [] => if fr.isEmpty then some [] else none
@@ -102,7 +111,7 @@ structure TiedA (s : RState) (fr : List Fr) (del : Option Del) : Prop where
 def ChgA (c c' : Instr) (B : List Tok) (alt : Option (List Tok)) (A : List Tok) : Prop :=
   c'.before = c.before ++ B ∧ c'.after = c.after ++ A ∧ c'.alt = alt ∧ c'.tok = c.tok
 
-theorem Chg.chgA {c c' : Instr} {B A : List Tok} (h : Chg c c' B A) (hc : c.alt = none) : ChgA c c' B none A :=
+theorem Chg.chgA {c c' : Instr} {B A : List Tok} {x : Option (List Tok)} (h : Chg c c' B A) (hc : c.alt = x) : ChgA c c' B x A :=
   ⟨h.1, h.2.1, h.2.2.1.trans hc, h.2.2.2⟩
 
 /-- an emptied instruction: alternate `[]`, special lists gone, the rest kept -/
@@ -351,9 +360,10 @@ theorem rcoreA_retained_end (s : RState) (top : Fr) (rfr : List Fr) (dl : Del) (
     simp only [a1, a2, a3] at this
     exact this
 
-theorem planBlockAlt_mid (A B : List Instr) (x : Instr) (alt : List Tok) (hx : x.alt = none) :
-    ∃ y, planBlockAlt (A ++ x :: B) A.length alt = A ++ y :: B ∧ y.before = x.before ∧ y.after = x.after ∧ y.alt = some alt ∧ y.tok = x.tok := by
-  unfold planBlockAlt
+theorem planBlockAlt_mid (A B : List Instr) (x : Instr) (alt : List Tok) :
+    ∃ y, planBlockAlt (A ++ x :: B) A.length alt = A ++ y :: B ∧ y.before = x.before ∧ y.after = x.after ∧ y.alt = some (altOf x alt)
+      ∧ y.tok = x.tok := by
+  unfold planBlockAlt altOf
   cases he : alt.isEmpty with
   | true =>
     have : alt = [] := List.isEmpty_iff.mp he
@@ -361,15 +371,15 @@ theorem planBlockAlt_mid (A B : List Instr) (x : Instr) (alt : List Tok) (hx : x
     simp only [if_true, mark_at]
     exact ⟨mark x, rfl, (mark_chg x).1, (mark_chg x).2.1, (mark_chg x).2.2.1, (mark_chg x).2.2.2⟩
   | false =>
-    simp only [Bool.false_eq_true, if_false, discardSpecial, modifyAt_mid, hx, Option.getD_none, List.nil_append]
+    simp only [Bool.false_eq_true, if_false, discardSpecial, modifyAt_mid]
     exact ⟨_, rfl, rfl, rfl, rfl, rfl⟩
 
 /-- **a block alternate on `block` / `loop` / `if`**: the replacement takes the opener's place; removal starts -/
 theorem rcoreA_start_open (s : RState) (fr : List Fr) (done rest : List Instr) (c ins : Instr) (alt : List Tok)
-    (hca : c.alt = none) (ht : TiedA s fr none) (hb : s.body = done ++ c :: rest) (hk : ins.kind = .block ∨ ins.kind = .loop ∨ ins.kind = .if_)
+    (hca : c.alt = ins.alt) (ht : TiedA s fr none) (hb : s.body = done ++ c :: rest) (hk : ins.kind = .block ∨ ins.kind = .loop ∨ ins.kind = .if_)
     (ha : ins.blockAlt = some alt) :
     let s' := rcore s done.length ins
-    TiedA s' ({} :: fr) (some ⟨fr.length, false⟩) ∧ Keep s s' ∧ ∃ c', s'.body = done ++ c' :: rest ∧ ChgA c c' [] (some alt) [] := by
+    TiedA s' ({} :: fr) (some ⟨fr.length, false⟩) ∧ Keep s s' ∧ ∃ c', s'.body = done ++ c' :: rest ∧ ChgA c c' [] (some (altOf ins alt)) [] := by
   have hd : s.deleteBlock = none := ht.hdel
   have hst : (s.stack ++ [s.stack.length]) = List.range (fr.length + 1) := by rw [ht.tabs.stack]; exact range_push _
   have htop : top (s.stack ++ [s.stack.length]) = fr.length := by rw [hst, top_range_succ]
@@ -378,9 +388,10 @@ theorem rcoreA_start_open (s : RState) (fr : List Fr) (done rest : List Instr) (
                  deleteBlock := some fr.length } := by
     rcases hk with h | h | h <;> simp [rcore, h, ha, hd, htop]
   rw [hred]
-  obtain ⟨y, hy, y1, y2, y3, y4⟩ := planBlockAlt_mid done rest c alt hca
+  obtain ⟨y, hy, y1, y2, y3, y4⟩ := planBlockAlt_mid done rest c alt
+  have y3' : y.alt = some (altOf ins alt) := by rw [y3]; simp only [altOf, hca]
   refine ⟨⟨ht.tabs.push_empty _ rfl rfl rfl rfl, rfl, ?_⟩, ⟨rfl, rfl, rfl, rfl⟩, y, by show planBlockAlt s.body done.length alt = _; rw [hb, hy],
-    by simp [y1], by simp [y2], y3, y4⟩
+    by simp [y1], by simp [y2], y3', y4⟩
   intro dl' hdl'
   cases hdl'
   refine ⟨rfl, by simp, ?_, ?_⟩
@@ -393,11 +404,11 @@ theorem rcoreA_start_open (s : RState) (fr : List Fr) (done rest : List Instr) (
 /-- **a block alternate on `else`**: what the `if` left pending goes in front, the replacement takes the `else`'s place, the arm is
     removed, the `end` stays -/
 theorem rcoreA_start_else (s : RState) (top : Fr) (rfr : List Fr) (done rest : List Instr) (c ins : Instr) (alt : List Tok)
-    (hca : c.alt = none) (ht : TiedA s (top :: rfr) none) (hb : s.body = done ++ c :: rest) (hk : ins.kind = .else_)
+    (hca : c.alt = ins.alt) (ht : TiedA s (top :: rfr) none) (hb : s.body = done ++ c :: rest) (hk : ins.kind = .else_)
     (ha : ins.blockAlt = some alt) :
     let s' := rcore s done.length ins
     TiedA s' ({ top with ifExit := [] } :: rfr) (some ⟨rfr.length, true⟩) ∧ Keep s s'
-      ∧ ∃ c', s'.body = done ++ c' :: rest ∧ ChgA c c' top.ifExit (some alt) [] := by
+      ∧ ∃ c', s'.body = done ++ c' :: rest ∧ ChgA c c' top.ifExit (some (altOf ins alt)) [] := by
   have hd : s.deleteBlock = none := ht.hdel
   have htop : Lower.top s.stack = rfr.length := by rw [ht.tabs.stack]; simp only [List.length_cons]; exact top_range_succ _
   have hred : rcore s done.length ins
@@ -408,10 +419,11 @@ theorem rcoreA_start_else (s : RState) (top : Fr) (rfr : List Fr) (done rest : L
   rw [hred]
   obtain ⟨⟨c1, hb1, hc1⟩, q0, q1, q2, q3, q4, q5, q6, q7, q8, q9, _⟩ := flushE_spec s done rest c rfr.length hb ht.tabs.f1
   have e1 : flat (getInj s.onElseOrEnd rfr.length) = top.ifExit := by rw [ht.tabs.t1, frAt_top]
-  have hc1alt : c1.alt = none := hc1.2.2.1.trans hca
-  obtain ⟨y, hy, y1, y2, y3, y4⟩ := planBlockAlt_mid done rest c1 alt hc1alt
+  have hc1alt : c1.alt = ins.alt := hc1.2.2.1.trans hca
+  obtain ⟨y, hy, y1, y2, y3, y4⟩ := planBlockAlt_mid done rest c1 alt
+  have y3' : y.alt = some (altOf ins alt) := by rw [y3]; simp only [altOf, hc1alt]
   refine ⟨⟨ht.tabs.flushed_top q0 q1 q2 q8 q9, rfl, ?_⟩, ⟨q6, q7, q4, q5⟩, y,
-    by show planBlockAlt (flushE s done.length rfr.length).body done.length alt = _; rw [hb1, hy], ?_, ?_, y3, ?_⟩
+    by show planBlockAlt (flushE s done.length rfr.length).body done.length alt = _; rw [hb1, hy], ?_, ?_, y3', ?_⟩
   · intro dl' hdl'
     cases hdl'
     refine ⟨rfl, by simp, ?_, ?_⟩
@@ -423,7 +435,7 @@ theorem rcoreA_start_else (s : RState) (top : Fr) (rfr : List Fr) (done rest : L
   · rw [y2, hc1.2.1]
   · rw [y4, hc1.2.2.2]
 
-theorem PlainA.plain {i : Instr} (h : PlainA i) (hb : i.blockAlt = none) : Plain i := ⟨h.alt, hb, h.only⟩
+theorem PlainA.plain {i : Instr} (h : PlainA i) (hb : i.blockAlt = none) : Plain i := ⟨hb, h.only⟩
 
 theorem Tied.tiedA {s : RState} {fr : List Fr} (h : Tied s fr) : TiedA s fr none :=
   ⟨h.tabs, h.del, fun _ hdl => by cases hdl⟩
@@ -432,7 +444,7 @@ theorem TiedA.tied {s : RState} {fr : List Fr} (h : TiedA s fr none) : Tied s fr
 
 /-- **one step of the resolver is one step of the extended stack machine** -/
 theorem rcoreA_tied (s : RState) (fr : List Fr) (del : Option Del) (done rest : List Instr) (c ins : Instr) (hp : PlainA ins)
-    (hca : c.alt = none)
+    (hca : c.alt = ins.alt)
     (ht : TiedA s fr del) (hb : s.body = done ++ c :: rest) (fr' : List Fr) (del' : Option Del) (B : List Tok) (alt : Option (List Tok))
     (A : List Tok) (hs : specStepA fr del ins = some (fr', del', B, alt, A)) :
     let s' := rcore s done.length ins
@@ -492,7 +504,7 @@ theorem rcoreA_tied (s : RState) (fr : List Fr) (del : Option Del) (done rest : 
     | none =>
       -- nothing is being removed and nothing starts: the plain stack machine
       have hpl := hp.plain hba
-      have key : ∀ (fr1 : List Fr) (B1 A1 : List Tok), specStep fr ins = some (fr1, B1, A1) → fr' = fr1 → del' = none → B = B1 → alt = none → A = A1 →
+      have key : ∀ (fr1 : List Fr) (B1 A1 : List Tok), specStep fr ins = some (fr1, B1, A1) → fr' = fr1 → del' = none → B = B1 → alt = ins.alt → A = A1 →
           (let s' := rcore s done.length ins
            TiedA s' fr' del' ∧ Keep s s' ∧ ∃ c', s'.body = done ++ c' :: rest ∧ ChgA c c' B alt A) := by
         intro fr1 B1 A1 h1 e1 e2 e3 e4 e5
@@ -586,7 +598,7 @@ theorem rloopA_tied (last : Nat) : ∀ (xs : List Instr) (s : RState) (fr : List
         have hpx := hp x (List.mem_cons_self ..)
         have hstep : rstep last s done.length x = rcore s done.length x := by rw [rstep_eq, rpre_nil _ _ _ _ hen hex]
         obtain ⟨t, ⟨n1, n2, n3, n4⟩, c', hb', cb, ca, cal, ctok⟩ :=
-          rcoreA_tied s fr del done xs x x hpx hpx.alt ht hb fr' del' B alt A h1
+          rcoreA_tied s fr del done xs x x hpx rfl ht hb fr' del' B alt A h1
         rw [← hstep] at t n1 n2 n3 n4 hb'
         have hb2 : (rstep last s done.length x).body = (done ++ [c']) ++ xs := by rw [hb']; simp
         have hlen : (done ++ [c']).length = done.length + 1 := by simp
@@ -631,7 +643,7 @@ theorem plainA_modifyAt_mode (xs : List Instr) (j : Nat) (m : Option Mode) (hp :
     · have hx : x ∈ xs := List.mem_of_getElem? h
       have px := hp x hx
       subst h1
-      exact ⟨px.alt, px.altOnly, px.only⟩
+      exact ⟨px.altOnly, px.only⟩
 
 /-- **The resolver refines the extended stack machine**: `before` / `after` anywhere, block-entry / block-exit / semantic-after on
     constructs, and block alternates on constructs — any number of each, in any combination. -/
@@ -742,10 +754,10 @@ theorem specRunA_alt_open (last idx : Nat) (b : Fr) (base' : List Fr) (X endI : 
     (hend : endI.kind = .end_) (hl : idx + region.length + 2 ≤ last) (hpost : post ≠ []) :
     specRunA last idx (b :: base') none (X :: (region ++ endI :: post))
       = (specRunA last (idx + region.length + 2) (b :: base') none post).map
-          (fun o => X.before ++ alt ++ X.after ++ removedToks region ++ endI.before ++ endI.after ++ o) := by
+          (fun o => X.before ++ altOf X alt ++ X.after ++ removedToks region ++ endI.before ++ endI.after ++ o) := by
   have hlt : ¬ idx ≥ last := by omega
   have hstepX : specStepA (b :: base') none X
-      = some (emptyFr :: b :: base', some ⟨base'.length + 1, false⟩, [], some alt, []) := by
+      = some (emptyFr :: b :: base', some ⟨base'.length + 1, false⟩, [], some (altOf X alt), []) := by
     rcases hk with h | h | h <;> simp [specStepA, h, hx, emptyFr]
   have hne : (region ++ endI :: post).isEmpty = false := by cases region <;> simp
   simp only [specRunA, hstepX, List.isEmpty_cons, hne, Bool.false_and, Bool.false_eq_true, if_false, hlt, Option.getD_some]
@@ -779,11 +791,11 @@ theorem specRunA_alt_else (last idx : Nat) (top b : Fr) (base' : List Fr) (X end
     (hend : endI.kind = .end_) (hl : idx + region.length + 1 ≤ last) :
     specRunA last idx (top :: b :: base') none (X :: (region ++ endI :: post))
       = (specRunA last (idx + region.length + 1) ({ top with ifExit := [] } :: b :: base') none (endI :: post)).map
-          (fun o => X.before ++ top.ifExit ++ alt ++ X.after ++ removedToks region ++ o) := by
+          (fun o => X.before ++ top.ifExit ++ altOf X alt ++ X.after ++ removedToks region ++ o) := by
   generalize hR : specRunA last (idx + region.length + 1) ({ top with ifExit := [] } :: b :: base') none (endI :: post) = R
   have hlt : ¬ idx ≥ last := by omega
   have hstepX : specStepA (top :: b :: base') none X
-      = some ({ top with ifExit := [] } :: b :: base', some ⟨base'.length + 1, true⟩, top.ifExit, some alt, []) := by
+      = some ({ top with ifExit := [] } :: b :: base', some ⟨base'.length + 1, true⟩, top.ifExit, some (altOf X alt), []) := by
     simp [specStepA, hk, hx]
   have hne : (region ++ endI :: post).isEmpty = false := by cases region <;> simp
   simp only [specRunA, hstepX, List.isEmpty_cons, hne, Bool.false_and, Bool.false_eq_true, if_false, hlt, Option.getD_some]
